@@ -285,3 +285,359 @@ def NC1(vc):
     vc.ensure('resource_version_of_the_list', rv is ls['rv'])
     vc.canary('canary.always_versioned', rv is not None)
     return ('listed', ls['has_items'], rv)
+
+
+# ================================================================================================ NC2
+_NAMES = ['things', 'things/status', 'things/scale', 'thingsx', 'thingsx/status', 'orphans/status']
+_SUBS = ('status', 'scale')
+_LAYOUTS3 = [['things', 'things/status', 'things/scale'], ['things/status', 'thingsx', 'things'],
+             ['thingsx/status', 'things', 'orphans/status'], ['things', 'thingsx', 'thingsx/status']]
+
+
+def _draw_discovery_entries(vc):
+    """The `resources` of an APIResourceList: 0..2 entries with any distinct names of _NAMES in any order, or one of 4 layouts
+    of 3 entries; per entry a symbolic singularName (incl. empty) and namespaced flag; the optional fields
+    (verbs/shortNames/categories) in 4 shapes (absent, null/empty, one, several) rotated over the entries."""
+    n = vc.nondet(4, 'discovery entries: 0 / 1 / 2 / 3')
+    if n == 3:
+        names = list(_LAYOUTS3[vc.nondet(len(_LAYOUTS3), 'layout of 3 entries')])
+    else:
+        names = []
+        for i in range(n):
+            rest = [x for x in _NAMES if x not in names]
+            names.append(rest[vc.nondet(len(rest), f'name of entry {i}')])
+    shift = vc.nondet(4, 'shapes of the optional fields') if names else 0
+    entries = []
+    for i, name in enumerate(names):
+        e = {'name': name, 'kind': f'Kind{i}', 'singularName': vc.str(f'singularName{i}'), 'namespaced': vc.bool(f'namespaced{i}')}
+        shape = (shift + i) % 4
+        if shape == 0:
+            e.update(verbs=['list', 'watch', f'verb{i}'], shortNames=[f'sn{i}'], categories=['all'])
+        elif shape == 1:
+            e.update(verbs=None)
+        elif shape == 2:
+            e.update(shortNames=[], categories=[])
+        else:
+            e.update(verbs=[], shortNames=[f'a{i}', f'b{i}'])
+        entries.append(e)
+    return entries
+
+
+@harness('NC2', targets='kopf._cogs.clients.scanning._read_version', props=['C19', 'C12'],
+         clauses=['one_discovery_request', 'one_resource_per_plain_entry', 'identity_from_the_arguments', 'names_from_the_entry',
+                  'subresources_attached_to_their_parent', 'vanished_group_tolerated', 'other_failures_propagate'],
+         canaries=['canary.never_empty', 'canary.never_fails', 'canary.no_subresources'],
+         trusted=['api.get by contract N5', 'references.Resource: a plain frozen dataclass (real objects are built)',
+                  'precondition (K8s API, APIResourceList): every entry has name/kind/singularName/namespaced; names are distinct'],
+         assumes=['NC2: documents of 0..2 entries with any distinct names out of 6 (plain, subresource of a listed / of an unlisted '
+                  'resource, a name that is a proper prefix of another) in any order, plus 4 layouts of 3 entries; the comprehension '
+                  'runs natively over the concrete-length list (BOUNDED in the number of entries; leaves symbolic where the code '
+                  'does not hash them)'])
+def NC2(vc):
+    """
+    scanning._read_version(url, group, version, preferred, settings, logger): ONE api.get of the given url; the result is
+    the set of resources the discovery document (APIResourceList) describes (C19: which kinds exist -- and so which
+    watches are started and stopped -- is decided from this):
+      * exactly one Resource per entry whose name has no '/' (the entries with a '/' are subresources, never resources);
+      * its group/version/preferred are the arguments (the document is not consulted for them), plural = the entry's name,
+        kind = its kind, singular = its singularName -- or, where that is empty (K3s), the lower-cased kind --,
+        shortcuts/categories/verbs = the entry's shortNames/categories/verbs as sets (absent or null => empty),
+        namespaced = the entry's flag;
+      * subresources: s is a subresource of R  <=>  the document lists "<R's plural>/<s>" -- nothing of a resource whose
+        name merely starts with R's plural (thingsx/status is not things'), nothing of unlisted parents;
+      * a document without `resources` describes nothing;
+      * a 404 (the group/version vanished between the listing of the groups and this request: the last CRD of a group
+        was deleted) is tolerated: no resources, no error -- the scan of the other groups goes on; every other failure
+        (other API errors, network errors, cancellation) propagates unchanged (C12: nothing else is swallowed here).
+    BOUNDED in the number of entries (see assumes); everything else by enumeration of all paths.
+    """
+    url, group, version, settings, logger = Opaque('url'), Opaque('group'), Opaque('version'), Opaque('settings'), _RecLogger(vc)
+    preferred = vc.bool('preferred')
+    reps = exception_reps([errors.APINotFoundError, errors.APIError, aiohttp.ClientConnectionError], with_base=False) \
+        + [asyncio.TimeoutError, asyncio.CancelledError]
+    st = dict(thrown=None, entries=None, has_resources=False)
+
+    async def get(*args, **kw):
+        vc.emit('get', args, kw)
+        await suspend('api.get')
+        k = vc.nondet(2 + len(reps), 'api.get: document / document without resources / raises')
+        if k >= 2:
+            st['thrown'] = _mk(reps[k - 2], status=404)
+            raise st['thrown']
+        if k == 1:
+            st['entries'] = []
+            return {'kind': 'APIResourceList', 'groupVersion': 'g/v'}
+        st['has_resources'] = True
+        st['entries'] = _draw_discovery_entries(vc)
+        return {'kind': 'APIResourceList', 'groupVersion': 'g/v', 'resources': st['entries']}
+    vc.used('api.get', 'N5')
+    ld = vc.load('kopf._cogs.clients.scanning', '_read_version', stubs={'api.get': get})
+    result = raised = None
+    try:
+        result = vc.drive(ld.fn(url=url, group=group, version=version, preferred=preferred, settings=settings, logger=logger))
+    except BaseException as e:
+        if _ours(e):
+            raise
+        raised = e
+    gets = [ev for ev in vc.trace if ev[0] == 'get']
+    vc.ensure('one_discovery_request', len(gets) == 1)
+    got = dict(zip(['url'], gets[0][1]), **gets[0][2])
+    vc.ensure('one_discovery_request', got.get('url') is url and got.get('settings') is settings and got.get('logger') is logger
+              and set(got) == {'url', 'settings', 'logger'})
+    vc.canary('canary.never_fails', raised is None)
+    thrown = st['thrown']
+    if thrown is not None and not isinstance(thrown, errors.APINotFoundError):
+        vc.ensure('other_failures_propagate', raised is thrown)
+        return ('raised', type(thrown).__name__)
+    vc.ensure('other_failures_propagate', raised is None)
+    if raised is not None:
+        return ('raised-unexpectedly', type(raised).__name__)
+    found = list(result)
+    if thrown is not None:
+        vc.ensure('vanished_group_tolerated', len(found) == 0)
+        return ('404', len(found))
+    entries = st['entries']
+    names = [e['name'] for e in entries]
+    plain = [e for e in entries if '/' not in e['name']]
+    vc.canary('canary.never_empty', len(found) > 0)
+    vc.ensure('one_resource_per_plain_entry', all(isinstance(r, references.Resource) for r in found)
+              and len(found) == len(plain) and sorted(r.plural for r in found) == sorted(e['name'] for e in plain))
+    by_plural = {r.plural: r for r in found if isinstance(r, references.Resource)}
+    for e in plain:
+        r = by_plural.get(e['name'])
+        if r is None:
+            continue
+        vc.ensure('identity_from_the_arguments', r.group is group and r.version is version and Eq(r.preferred, preferred))
+        sn = e['singularName']
+        vc.ensure('names_from_the_entry', r.kind == e['kind'] and r.plural == e['name'])
+        vc.ensure('names_from_the_entry', If(Eq(sn, ''), Eq(r.singular, e['kind'].lower()), Eq(r.singular, sn)))
+        vc.ensure('names_from_the_entry', r.shortcuts == frozenset(e.get('shortNames') or ())
+                  and r.categories == frozenset(e.get('categories') or ()) and r.verbs == frozenset(e.get('verbs') or ())
+                  and all(isinstance(x, frozenset) for x in (r.shortcuts, r.categories, r.verbs, r.subresources)))
+        vc.ensure('names_from_the_entry', Eq(r.namespaced, e['namespaced']))
+        vc.ensure('subresources_attached_to_their_parent',
+                  r.subresources == frozenset(s for s in _SUBS if f"{e['name']}/{s}" in names))
+        vc.canary('canary.no_subresources', len(r.subresources) == 0)
+    return ('scanned', sorted(names), sorted((r.plural, sorted(r.subresources)) for r in found))
+
+
+# ================================================================================================ NC3
+_GROUPS_DOMAIN = [None, set(), {''}, {'', 'g1.example.com'}, {'g1.example.com'}, [''], ('g1.example.com', ''),
+                  frozenset({'g1.example.com', 'g2.example.com'})]
+
+
+def _in_groups(name, groups):
+    """name is one of the requested groups (no fork)"""
+    return Or(*[Eq(name, g) for g in groups]) if groups else False
+
+
+class _Scan:
+    """What the three scanning functions share: the ghost callee `_read_version` (contract NC2), asyncio.as_completed."""
+
+    def __init__(self, vc):
+        self.vc = vc
+        self.thrown = None
+        self.returned = []          # the sets the callees returned
+        self.coros = []
+        self.reps = [errors.APIError, asyncio.CancelledError]      # no except clause in the callers: two kinds suffice
+
+    def callee(self, name):
+        """A ghost callee returning a collection of resources (fresh tokens: 1, 2, 0, 1, ... of them) or raising."""
+        async def call(*args, **kw):
+            vc = self.vc
+            vc.emit(name, args, kw)
+            await suspend(name)
+            k = vc.nondet(1 + len(self.reps), f'{name}: resources / raises')
+            if k > 0:
+                self.thrown = _mk(self.reps[k - 1])
+                raise self.thrown
+            j = len(self.returned)
+            out = {Opaque(f'{name}#{j}.{i}') for i in range((1, 2, 0)[j % 3])}
+            self.returned.append(out)
+            return out
+
+        def make(*args, **kw):
+            c = call(*args, **kw)
+            self.coros.append(c)
+            return c
+        return make
+
+    def as_completed(self, coros, **kw):
+        """asyncio.as_completed by contract: one awaitable per given coroutine, each giving the result (or raising the
+        exception) of one of them, every one exactly once, in the order of completion -- here: as given, or reversed."""
+        cs = list(coros)
+        self.vc.emit('as_completed', len(cs))
+        if len(cs) > 1 and self.vc.nondet(2, 'completion order: as given / reversed') == 1:
+            cs.reverse()
+        return cs
+
+    def close(self):
+        for c in self.coros:
+            c.close()
+
+    def union(self):
+        out = set()
+        for s in self.returned:
+            out |= s
+        return out
+
+
+@harness('NC3', targets=['kopf._cogs.clients.scanning._read_old_api', 'kopf._cogs.clients.scanning._read_new_apis',
+                         'kopf._cogs.clients.scanning.scan_resources'], props=['C19', 'C12'],
+         clauses=['core.read_iff_requested', 'core.every_version_scanned', 'groups.read_iff_requested',
+                  'groups.only_requested_groups_scanned', 'groups.every_version_scanned', 'groups.preferred_is_the_preferred_version',
+                  'scan.both_apis_same_filter', 'union_of_everything_found', 'failures_propagate'],
+         canaries=['canary.never_reads', 'canary.always_preferred', 'canary.never_fails', 'canary.never_filtered'],
+         trusted=['api.get by contract N5', 'scanning._read_version by contract NC2',
+                  'asyncio.as_completed: every given coroutine is run and awaited exactly once, in any order',
+                  'precondition (K8s API): /api is an APIVersions (`versions`: strings), /apis an APIGroupList (`groups`: '
+                  'name, versions[].version, preferredVersion.version; group names distinct)'],
+         assumes=['NC3: /api with 0..2 versions, /apis with 0..2 groups of 1..2 versions -- all names ARBITRARY strings; `groups` '
+                  'over 8 shapes (None, empty, with/without the core group, set/list/tuple/frozenset); the comprehensions run '
+                  'natively over the concrete-length lists (BOUNDED in their lengths)'])
+def NC3(vc):
+    """
+    Resource discovery (C19: the kinds that exist are the union of what these report; `groups` limits a re-scan to the
+    group of the CRD that changed).
+    _read_old_api(groups): the core API is read iff groups is None or contains '' -- then ONE GET /api and, for every
+      version v it lists, one _read_version(url='/api/<v>', group='', version=v, preferred=True) -- core versions are
+      always "preferred"; otherwise no request at all and no resources.
+    _read_new_apis(groups): the API groups are read iff groups is None or names at least one non-core group -- then ONE
+      GET /apis and, for every listed group that is requested (all if groups is None) and every version of it, one
+      _read_version(url='/apis/<group>/<v>', group=<group>, version=v, preferred = (v is the group's preferredVersion));
+      no other group is scanned (the re-scan of one group must not touch -- or pay for -- the others).
+    scan_resources(groups): both of the above with the caller's groups/settings/logger.
+    All three: the result is the union of everything the callees returned (nothing dropped, nothing added); the first
+    failure (of a GET or of a callee -- _read_version has already tolerated the 404s it may, NC2) propagates unchanged.
+    """
+    scenario = ['core', 'groups', 'scan'][vc.nondet(3, 'function: _read_old_api / _read_new_apis / scan_resources')]
+    sc = _Scan(vc)
+    settings, logger = Opaque('settings'), _RecLogger(vc)
+    st = dict(doc=None, get_thrown=None)
+    get_reps = [errors.APINotFoundError, aiohttp.ClientConnectionError, asyncio.CancelledError]
+
+    def draw_doc(which):
+        if which == '/api':
+            vs = [vc.str(f'version{i}') for i in range(vc.nondet(3, '/api: 0 / 1 / 2 versions'))]
+            return {'kind': 'APIVersions', 'versions': vs}
+        gs = []
+        for i in range(vc.nondet(3, '/apis: 0 / 1 / 2 groups')):
+            vs = [vc.str(f'group{i}.version{j}') for j in range(1 + vc.nondet(2, f'group {i}: 1 / 2 versions'))]
+            gs.append({'name': vc.str(f'group{i}.name'), 'versions': [{'groupVersion': 'x', 'version': v} for v in vs],
+                       'preferredVersion': {'groupVersion': 'x', 'version': vc.str(f'group{i}.preferred')}})
+        if len(gs) == 2:
+            vc.assume(Not(Eq(gs[0]['name'], gs[1]['name'])), 'group names are distinct')
+        return {'kind': 'APIGroupList', 'groups': gs}
+
+    async def get(*args, **kw):
+        vc.emit('get', args, kw)
+        await suspend('api.get')
+        k = vc.nondet(1 + len(get_reps), 'api.get: document / raises')
+        if k > 0:
+            st['get_thrown'] = _mk(get_reps[k - 1], status=404)
+            raise st['get_thrown']
+        url = (list(args) + [kw.get('url')])[0]
+        if url not in ('/api', '/apis'):
+            raise Unsupported(f'GET of an unexpected url {url!r}')
+        st['doc'] = draw_doc(url)
+        return st['doc']
+    vc.used('api.get', 'N5'); vc.used('scanning._read_version', 'NC2')
+    result = raised = None
+
+    def run(coro):
+        nonlocal result, raised
+        try:
+            result = vc.drive(coro)
+        except BaseException as e:
+            if _ours(e):
+                raise
+            raised = e
+        finally:
+            sc.close()
+
+    def check_outcome():
+        """union / failure clauses shared by the three functions; True if the function returned"""
+        thrown = st['get_thrown'] or sc.thrown
+        vc.canary('canary.never_fails', raised is None)
+        if thrown is not None:
+            vc.ensure('failures_propagate', raised is thrown)
+            return False
+        vc.ensure('failures_propagate', raised is None)
+        if raised is not None:
+            return False
+        vc.ensure('union_of_everything_found', result is not None and len(result) == len(sc.union()) and set(result) == sc.union())
+        return True
+
+    if scenario == 'scan':
+        groups_given = vc.nondet(2, 'groups: omitted / given') == 1
+        groups = Opaque('groups')
+        old, new = sc.callee('_read_old_api'), sc.callee('_read_new_apis')
+        ld = vc.load('kopf._cogs.clients.scanning', 'scan_resources',
+                     stubs={'_read_old_api': old, '_read_new_apis': new, 'asyncio.as_completed': sc.as_completed, 'api.get': get})
+        run(ld.fn(settings=settings, logger=logger, **({'groups': groups} if groups_given else {})))
+        calls = [ev for ev in vc.trace if ev[0] in ('_read_old_api', '_read_new_apis')]
+        vc.ensure('scan.both_apis_same_filter', 'get' not in _names(vc))
+        for ev in calls:
+            vc.ensure('scan.both_apis_same_filter', ev[1] == () and set(ev[2]) == {'groups', 'settings', 'logger'}
+                      and ev[2]['groups'] is (groups if groups_given else None)
+                      and ev[2]['settings'] is settings and ev[2]['logger'] is logger)
+        if check_outcome():
+            vc.ensure('scan.both_apis_same_filter', sorted(ev[0] for ev in calls) == ['_read_new_apis', '_read_old_api'])
+        return ('scan', groups_given, type(raised).__name__)
+
+    groups = _GROUPS_DOMAIN[vc.nondet(len(_GROUPS_DOMAIN), 'groups')]
+    groups = copy.copy(groups)
+    rv = sc.callee('_read_version')
+    ld = vc.load('kopf._cogs.clients.scanning', '_read_old_api' if scenario == 'core' else '_read_new_apis',
+                 stubs={'_read_version': rv, 'asyncio.as_completed': sc.as_completed, 'api.get': get})
+    run(ld.fn(settings=settings, logger=logger, groups=groups))
+    gets = [ev for ev in vc.trace if ev[0] == 'get']
+    calls = [ev[2] for ev in vc.trace if ev[0] == '_read_version']
+    vc.ensure('failures_propagate', all(ev[1] == () for ev in vc.trace if ev[0] == '_read_version'))
+    for ev in gets:
+        got = dict(zip(['url'], ev[1]), **ev[2])
+        vc.ensure(f'{scenario}.read_iff_requested', got.get('url') == ('/api' if scenario == 'core' else '/apis')
+                  and got.get('settings') is settings and got.get('logger') is logger and set(got) == {'url', 'settings', 'logger'})
+    for kw in calls:
+        vc.ensure(f'{scenario}.every_version_scanned', set(kw) == {'url', 'group', 'version', 'preferred', 'settings', 'logger'}
+                  and kw['settings'] is settings and kw['logger'] is logger)
+    vc.canary('canary.never_reads', len(gets) == 0)
+    if scenario == 'core':
+        wanted = groups is None or '' in groups
+        vc.ensure('core.read_iff_requested', len(gets) == (1 if wanted else 0))
+        if not wanted:
+            vc.ensure('core.read_iff_requested', len(calls) == 0)
+        returned = check_outcome()
+        for kw in calls:
+            vc.ensure('core.every_version_scanned', kw['group'] == '' and kw['preferred'] is True
+                      and Eq(kw['url'], '/api/' + kw['version']))
+        if returned and wanted:
+            versions = st['doc']['versions']
+            vc.ensure('core.every_version_scanned', sorted(id(kw['version']) for kw in calls) == sorted(id(v) for v in versions))
+        return ('core', wanted, len(calls), type(raised).__name__)
+
+    wanted = groups is None or bool(set(groups) - {''})
+    vc.ensure('groups.read_iff_requested', len(gets) == (1 if wanted else 0))
+    if not wanted:
+        vc.ensure('groups.read_iff_requested', len(calls) == 0)
+    returned = check_outcome()
+    listed = st['doc']['groups'] if st['doc'] is not None else []
+    for kw in calls:
+        owner = [g for g in listed if g['name'] is kw['group']]
+        vc.ensure('groups.only_requested_groups_scanned', len(owner) >= 1)
+        if not owner:
+            continue
+        g = owner[0]
+        vc.ensure('groups.only_requested_groups_scanned', True if groups is None else _in_groups(g['name'], groups))
+        vc.ensure('groups.every_version_scanned', Eq(kw['url'], '/apis/' + g['name'] + '/' + kw['version']))
+        vc.ensure('groups.preferred_is_the_preferred_version', Iff(kw['preferred'], Eq(kw['version'], g['preferredVersion']['version'])))
+        vc.canary('canary.always_preferred', kw['preferred'])
+    if returned and wanted:
+        for g in listed:
+            mine = [kw for kw in calls if kw['group'] is g['name']]
+            inn = True if groups is None else _in_groups(g['name'], groups)
+            vc.canary('canary.never_filtered', inn)
+            all_versions = sorted(id(kw['version']) for kw in mine) == sorted(id(v['version']) for v in g['versions'])
+            vc.ensure('groups.every_version_scanned', Implies(inn, all_versions))
+            vc.ensure('groups.only_requested_groups_scanned', Implies(Not(inn), len(mine) == 0))
+    return ('groups', wanted, len(calls), type(raised).__name__)
